@@ -119,3 +119,26 @@ let () =
           if model = spec then "" else
           Printf.sprintf "ser.%s:%s:%s" fmt (if guard = "" then "UNGUARDED" else guard) (symptom model spec) in
         { model; spec; cls })
+
+let () =
+  (* serv <dt> <fmt>: the byte channels are the identity on every value of the element type *)
+  register2 "serv" (fun a impl ->
+      let dt = a.(0) and fmt = a.(1) in
+      let c = caps_of dt in
+      let n = match Str.search_forward (Str.regexp "n=\\([0-9]+\\)") impl 0 with
+        | _ -> int_of_string (Str.matched_group 1 impl) | exception Not_found -> 0 in
+      let ok dt' = Printf.sprintf "E=ok D=ok dt=%s n=%d eq=%s" dt' n (String.make n '1') in
+      let model =
+        match fmt with
+        | "npy" -> if not c.npy_w then "E=err"
+          else ok (match dt with "i64" -> "i" | "u64" -> "u" | _ -> dt)
+        | "csv" -> if not c.csv_r then "E=ok D=err" else ok dt
+        | _ -> ok dt in
+      let refused = impl = "E=err" in
+      let spec = if refused then "E=err" else ok dt in
+      let cls = if model = spec then "" else
+          (match fmt with
+           | "npy" -> "ser.npy:dtype-alias:dtype"
+           | "csv" -> "ser.csv:dtype-unreadable:status"
+           | _ -> "ser." ^ fmt ^ ":UNGUARDED:values") in
+      { model; spec; cls })
